@@ -278,6 +278,21 @@ func (x *Exec) goStmt(st *State, g *ssa.Go) {
 
 func (x *Exec) assertRequiresOnly(st *State, in ssa.Instruction, fc *FuncContract, f *ssa.Function, fv *FuncVal, args []Value, shortName string) {
 	vars := map[string]TV{}
+	if len(f.Params) == 0 && f.Signature != nil {
+		// a function without a body (external): parameters by position from the signature, named as in the contract
+		var ptypes []types.Type
+		if f.Signature.Recv() != nil {
+			ptypes = append(ptypes, f.Signature.Recv().Type())
+		}
+		for i := 0; i < f.Signature.Params().Len(); i++ {
+			ptypes = append(ptypes, f.Signature.Params().At(i).Type())
+		}
+		for i, a := range args {
+			if i < len(ptypes) && i < len(fc.Params) {
+				vars[fc.Params[i]] = TV{V: a, T: ptypes[i], S: x.prog.sortOf(ptypes[i])}
+			}
+		}
+	}
 	for i, a := range args {
 		if i < len(f.Params) {
 			tv := TV{V: a, T: f.Params[i].Type(), S: x.prog.sortOf(f.Params[i].Type())}
